@@ -533,12 +533,11 @@ def impl_text(case, rec):
 
 
 def is_deep(ctx):
-    """explore at thorough depth: thorough tier, or the fingerprints of the modelled functions
-    drifted / an obligation broke.  (lib/vcheck.py re-runs a drifted quick check at depth only
-    when the first pass recorded no violation at all - the known finding F8 is always recorded,
-    so the harness looks at the reasons itself; scopes still stop growing once something
-    unlisted failed.)"""
-    return bool(ctx.deep or getattr(ctx, 'deep_reasons', None))
+    """explore at thorough depth: thorough tier, or the second pass lib/vcheck.py makes after a
+    fingerprint drift / a broken obligation when the quick-depth pass found nothing unlisted
+    (vcheck sets `ctx.deep` for it; the known finding F8 does not suppress that pass any more,
+    so the harness no longer looks at `ctx.deep_reasons` itself - it made both passes deep)."""
+    return bool(ctx.deep)
 
 
 def unlisted_failure(ctx, res):
